@@ -33,7 +33,22 @@ class Unsupported(Exception):
     pass
 
 
+_EXCL = None
+
+
+def EXCLUSIONS():
+    global _EXCL
+    if _EXCL is None:
+        import json
+        _EXCL = {k: tuple(v) for k, v in json.loads(os.environ.get('PYVC_EXCLUSIONS', '{}')).items()}
+    return _EXCL
+
+
 class ContractError(Exception):
+    pass
+
+
+class NoCallRecorded(Unsupported):
     pass
 
 
@@ -98,6 +113,24 @@ def extract_property(relpath, qual, which):
     raise ContractError('property %s %s not found' % (qual, which))
 
 
+def class_consts(relpath, clsname):
+    """literal class attributes of a repo class, read from the AST"""
+    out = {}
+    for n in parse_module(relpath).body:
+        if isinstance(n, ast.ClassDef) and n.name == clsname:
+            for b in n.body:
+                if isinstance(b, ast.Assign) and len(b.targets) == 1 and isinstance(b.targets[0], ast.Name):
+                    try:
+                        out[b.targets[0].id] = ast.literal_eval(b.value)
+                    except Exception:
+                        out[b.targets[0].id] = ('expr', ast.unparse(b.value))
+    return out
+
+
+def lit_seq(items, kind):
+    return SeqV(mk_seq(list(items)), kind, list(items))
+
+
 def module_int_consts(relpath):
     """Top-level NAME = <int literal> assignments of a repo module (read from the AST)."""
     out = {}
@@ -117,14 +150,33 @@ def module_int_consts(relpath):
 # ----------------------------------------------------------------------------------
 class SeqV:
     """A Python sequence of ints: kind in bytes/tuple/list/any ('any' = spec-level, compares by content)."""
-    __slots__ = ('z', 'kind')
+    __slots__ = ('z', 'kind', 'items')
 
-    def __init__(self, z, kind):
+    def __init__(self, z, kind, items=None):
         self.z = z
         self.kind = kind
+        self.items = items      # python ints when built from a literal (PConst): inr facts are added
 
     def __repr__(self):
         return 'SeqV<%s>(%s)' % (self.kind, self.z)
+
+
+class RecSeqV:
+    """A sequence of fixed-width int records (e.g. the tags of a TagSet): parallel z3 sequences."""
+
+    def __init__(self, cols, kind='tuple'):
+        self.cols = list(cols)
+        self.kind = kind
+
+    @property
+    def length(self):
+        return Length(self.cols[0])
+
+    def elem(self, i):
+        return Tup([c[i] for c in self.cols])
+
+    def __repr__(self):
+        return 'RecSeqV<%d>' % len(self.cols)
 
 
 class Tup:
@@ -374,6 +426,8 @@ def truthy(v):
         return v != 0
     if isinstance(v, SeqV):
         return Length(v.z) > 0
+    if isinstance(v, RecSeqV):
+        return v.length > 0
     if isinstance(v, Tup):
         return len(v.items) > 0
     if isinstance(v, Obj):
@@ -467,6 +521,40 @@ def PIntList():
     return PSeq('list')
 
 
+class PRecSeq(PSort):
+    def __init__(self, width, kind='tuple'):
+        self.width = width
+        self.kind = kind
+
+    def make(self, ex, name):
+        cols = [Const('%s.c%d' % (name, k), S) for k in range(self.width)]
+        for c in cols[1:]:
+            ex.assume(Length(c) == Length(cols[0]))
+        return RecSeqV(cols, self.kind)
+
+
+class PSeqKindBy(PSort):
+    """int sequence whose python type follows a flag already in scope: bytes if flag else tuple"""
+
+    def __init__(self, flag):
+        self.flag = flag
+
+    def make(self, ex, name):
+        f = truthy(ex.env[self.flag])
+        k = 'bytes' if ex.choose(f, 'kind:' + name) else 'tuple'
+        return SeqV(Const(name, S), k)
+
+
+class PDerived(PSort):
+    """parameter built from earlier parameters: fn(ex, env) -> value"""
+
+    def __init__(self, fn):
+        self.fn = fn
+
+    def make(self, ex, name):
+        return self.fn(ex, ex.env)
+
+
 class PTup(PSort):
     def __init__(self, *elts):
         self.elts = elts
@@ -480,6 +568,8 @@ class PConst(PSort):
         self.v = v
 
     def make(self, ex, name):
+        if isinstance(self.v, SeqV) and self.v.items is not None:
+            ex.assume(inr_fact_units(self.v.z, self.v.items))
         return copy.deepcopy(self.v) if isinstance(self.v, (Obj, DictV, Tup)) else self.v
 
 
@@ -573,6 +663,56 @@ class Contract:
         self.defaults = defaults or {}
         self.ghost = ghost or {}
         self.external = set(external)             # names of ensures that carry the property (others: scaffolding)
+
+
+class CallContract:
+    """Modular call: the caller sees only the callee's contract (pure callee: no heap effects)."""
+
+    def __init__(self, contract, self_from=None, params=None):
+        self.contract = contract
+        self.self_from = self_from
+        self.params = params      # positional parameter names; default: contract order minus self
+
+    def __call__(self, ex, *args, **kwargs):
+        c = self.contract
+        names = self.params or [p for p in c.params if p != 'self']
+        env = {}
+        if 'self' in c.params:
+            env['self'] = ex.env[self.self_from or 'self']
+        for n, a in zip(names, args):
+            env[n] = a
+        for k, v in kwargs.items():
+            if k != '**':
+                env[k] = v
+        for n in names:
+            if n not in env:
+                if n in c.defaults:
+                    env[n] = c.defaults[n]
+                else:
+                    raise Unsupported('call of %s: missing argument %s' % (c.id, n))
+        saved_old = getattr(ex, 'old_env', None)
+        ex.old_env = env
+        try:
+            for i, r in enumerate(c.requires):
+                ex.vc('%s#call.pre:%s.%d' % (ex.c.id, c.id.split('::')[-1], i), ex.spec_bool(r, env),
+                      note='precondition of callee at call site')
+            for exc, when in c.raises.items():
+                if ex.choose(z3bool(ex.spec_bool(when, env)), 'callee-raises'):
+                    raise _Raise(ExcV(exc))
+            for exc, when in c.may_raise.items():
+                w = True if when is True else ex.spec_bool(when, env)
+                if ex.choose(b_and(ex.fresh('mayraise', BoolSort()), w), 'callee-may-raise'):
+                    raise _Raise(ExcV(exc))
+            if c.returns is None:
+                raise Unsupported('callee %s declares no result sort' % c.id)
+            res = c.returns.make(ex, 'ret:%s!%d' % (c.id.split('::')[-1], ex.fresh_ctr.setdefault('ret', 0)))
+            ex.fresh_ctr['ret'] += 1
+            env2 = dict(env, result=res)
+            for cl in c.ensures:
+                ex.assume(ex.spec_bool(cl, env2))
+        finally:
+            ex.old_env = saved_old
+        return res
 
 
 def split_top(s, op):
@@ -669,6 +809,7 @@ class Executor:
             self.fresh_ctr = {}
             self.writes = []
             self.ghost = {}
+            self.last_call = {}
             self.path_count += 1
             if self.path_count > self.MAX_PATHS:
                 raise Unsupported('path explosion (> %d paths)' % self.MAX_PATHS)
@@ -737,14 +878,22 @@ class Executor:
             else:
                 goal = BoolVal(False)
         self.vcs.append(VC(oid, list(self.pc), goal, list(self.decisions[:self.cursor]), kind, note))
+        ex = EXCLUSIONS().get(oid)
+        if ex is not None:
+            # recorded finding: additionally prove the obligation on the complement of its failing region,
+            # so that any *other* violation of the same obligation is still reported
+            kid, expr = ex
+            region = z3bool(self.spec_bool(expr, self.env))
+            self.vcs.append(VC('%s|kf:%s' % (oid, kid), list(self.pc), Or(region, goal),
+                               list(self.decisions[:self.cursor]), kind, 'complement of recorded finding ' + kid))
 
     # ---- running one path -------------------------------------------------------
     def run_path(self):
         c = self.c
         env = {}
+        self.env = env
         for name, sort in c.params.items():
             env[name] = sort.make(self, name) if isinstance(sort, PSort) else sort
-        self.env = env
         for name, sort in c.ghost.items():
             self.ghost[name] = sort.make(self, name) if isinstance(sort, PSort) else sort
         for r in c.requires:
@@ -811,7 +960,18 @@ class Executor:
             return b_and(b_implies(a, b), b_implies(b, a))
         sp = split_top(text, '==>')
         if sp:
-            return b_implies(self.spec_bool(sp[0], env, use_old), self.spec_bool(sp[1], env, use_old))
+            a = self.spec_bool(sp[0], env, use_old)
+            if a is False:
+                return True
+            try:
+                b = self.spec_bool(sp[1], env, use_old)
+            except NoCallRecorded:
+                # the consequent mentions a call-site ghost of a call that did not happen on this path:
+                # fine iff the antecedent is impossible here
+                if isinstance(a, bool) or self.feasible(a):
+                    raise
+                return True
+            return b_implies(a, b)
         node = ast.parse(text.strip(), mode='eval').body
         saved = self.env
         self.env = env
@@ -958,10 +1118,10 @@ class Executor:
         return sorted(set(names))
 
     def havoc(self, names, loop, lid):
+        for m, d in loop.decl.items():
+            self.env[m] = d.make(self, '%s!L%d' % (m, lid)) if isinstance(d, PSort) else d
         for m in names:
             if m in loop.decl:
-                d = loop.decl[m]
-                self.env[m] = d.make(self, '%s!L%d' % (m, lid)) if isinstance(d, PSort) else d
                 continue
             v = self.env.get(m, _MISSING)
             if v is _MISSING:
@@ -1086,10 +1246,11 @@ class Executor:
                     return
             self.exec_block(s.orelse)
             return
-        if not isinstance(seq, SeqV):
+        if not isinstance(seq, (SeqV, RecSeqV)):
             raise Unsupported('for over %r' % (seq,))
         if spec is None:
             raise Unsupported('for loop #%d over a symbolic sequence needs a Loop contract' % lid)
+        seqlen = Length(seq.z) if isinstance(seq, SeqV) else seq.length
         pre = '%s#loop%d' % (self.c.id, lid)
         idxname = spec.index or '_i%d' % lid
         self.env[idxname] = IntVal(0)
@@ -1097,10 +1258,10 @@ class Executor:
         self.havoc([n for n in self.assigned_names(s) if n not in self.target_names(s.target)], spec, lid)
         i = self.fresh(idxname + '!L%d' % lid, I)
         self.env[idxname] = i
-        self.assume(And(i >= 0, i <= Length(seq.z)))
+        self.assume(And(i >= 0, i <= seqlen))
         self.assume(self.inv(spec, self.env))
-        if self.choose(i < Length(seq.z), 'for%d' % lid):
-            elt = seq.z[i]
+        if self.choose(i < seqlen, 'for%d' % lid):
+            elt = seq.z[i] if isinstance(seq, SeqV) else seq.elem(i)
             self.assign(s.target, Tup([i, elt]) if with_index else elt)
             self.iter_old_env = self.snapshot(self.env)
             try:
@@ -1109,10 +1270,10 @@ class Executor:
                 pass
             except _Break:
                 return
-            self.env[idxname] = i + 1
-            self.vc(pre + '.preserve', self.inv(spec, self.env))
             for k, cl in enumerate(spec.iter_ensures):
                 self.vc('%s.iter_post.%d' % (pre, k), self.spec_bool(cl, self.env), kind='external')
+            self.env[idxname] = i + 1
+            self.vc(pre + '.preserve', self.inv(spec, self.env))
             raise _PathEnd()
         else:
             self.exec_block(s.orelse)
@@ -1270,6 +1431,8 @@ class Executor:
         if isinstance(base, DictV) and attr in DICT_METHODS:
             f = DICT_METHODS[attr]
             return FnV(lambda ex, *a, **k: f(ex, base, *a, **k), attr)
+        if isinstance(base, FnV) and base.name == 'int' and attr == 'from_bytes':
+            return FnV(_int_from_bytes, 'int.from_bytes')
         if is_intlike(base) and attr in INT_METHODS:
             f = INT_METHODS[attr]
             return FnV(lambda ex, *a, **k: f(ex, base, *a, **k), attr)
@@ -1715,6 +1878,14 @@ class Executor:
             return v
         if isinstance(base, Obj) and '__getitem__' in base.methods:
             return base.methods['__getitem__'](self, base, k)
+        if isinstance(base, RecSeqV):
+            k = toint(k)
+            n = base.length
+            if getattr(self, '_in_spec', 0):
+                return base.elem(If(k < 0, n + k, k))
+            if not self.choose(And(k >= -n, k < n), 'index'):
+                raise _Raise(ExcV('IndexError'))
+            return base.elem(If(k < 0, n + k, k))
         if not isinstance(base, SeqV):
             raise Unsupported('index into %r' % (base,))
         k = toint(k)
@@ -1790,6 +1961,12 @@ class Executor:
             return self.ev_in(self.old_env, n.args[0])
         if key == 'iter_old':
             return self.ev_in(self.iter_old_env, n.args[0])
+        if key in ('last_result', 'last_args'):
+            k = n.args[0].value
+            if k not in self.last_call:
+                raise NoCallRecorded('no call of %s recorded on this path' % k)
+            a, r = self.last_call[k]
+            return r if key == 'last_result' else Tup(a)
         model = self.lookup_call_model(key)
         if model is None:
             f = self.ev(n.func)
@@ -1806,7 +1983,10 @@ class Executor:
             else:
                 args.append(self.ev(a))
         kwargs = self.eval_kwargs(n)
-        return self.call(f, args, kwargs, key)
+        r = self.call(f, args, kwargs, key)
+        if model is not None:
+            self.last_call[key] = (args, r)
+        return r
 
     def call(self, f, args, kwargs, key='?'):
         if isinstance(f, FnV):
@@ -1848,37 +2028,7 @@ FnV.__deepcopy__ = lambda self, memo: self
 ClassV.__deepcopy__ = lambda self, memo: self
 
 
-def d1_forwarding_shape(s):
-    """Kind-D1 obligation on a `for v in <generator>` statement (real AST):
-    on the path where v is an underrun object the body only does `yield v`.
-    Accepted shapes: body = [If(isinstance(v, SubstrateUnderrunError)) -> [yield v]] followed by
-    statements that are (a) `if v is eoo.endOfOctets: break`, or (b) any statements when the
-    isinstance test has an else/return structure excluding underrun objects; or a pure relay
-    body = [yield v]."""
-    if not isinstance(s.target, ast.Name):
-        return False, 'target is not a simple name'
-    v = s.target.id
-    body = [b for b in s.body if not Executor.is_log_test(getattr(b, 'test', None))]
-    if len(body) == 1 and isinstance(body[0], ast.Expr) and isinstance(body[0].value, ast.Yield) \
-            and isinstance(body[0].value.value, ast.Name) and body[0].value.value.id == v:
-        return True, 'relay'
-    if not body or not isinstance(body[0], ast.If):
-        return False, 'first statement is not the isinstance test'
-    t = body[0]
-    txt = ast.unparse(t.test)
-    if txt not in ('isinstance(%s, SubstrateUnderrunError)' % v,
-                   'isinstance(%s, error.SubstrateUnderrunError)' % v):
-        return False, 'test is %s' % txt
-    if not (len(t.body) == 1 and isinstance(t.body[0], ast.Expr) and isinstance(t.body[0].value, ast.Yield)
-            and isinstance(t.body[0].value.value, ast.Name) and t.body[0].value.value.id == v and not t.orelse):
-        return False, 'underrun branch is not exactly `yield %s`' % v
-    for rest in body[1:]:
-        if isinstance(rest, ast.If) and ast.unparse(rest.test) == '%s is eoo.endOfOctets' % v \
-                and len(rest.body) == 1 and isinstance(rest.body[0], ast.Break) and not rest.orelse:
-            continue
-        return False, 'statement after the forwarding test runs for underrun objects too: %s' % \
-            ast.unparse(rest).split('\n')[0]
-    return True, 'filter-forward'
+from pyvc.astutil import d1_forwarding_shape  # noqa: E402  (z3-free, shared with pyvc.tables)
 
 
 # ----------------------------------------------------------------------------------
@@ -1887,6 +2037,8 @@ def d1_forwarding_shape(s):
 def _len(ex, v):
     if isinstance(v, SeqV):
         return Length(v.z)
+    if isinstance(v, RecSeqV):
+        return v.length
     if isinstance(v, Tup):
         return len(v.items)
     if isinstance(v, (bytes, str, tuple, list)):
@@ -2153,6 +2305,16 @@ def _int_to_bytes(ex, v, length, byteorder='big', signed=False):
     return ex.X.int_to_bytes(ex, toint(v), toint(length), signed)
 
 
+def _int_from_bytes(ex, b, byteorder='big', signed=False):
+    if byteorder != 'big':
+        raise Unsupported('little endian')
+    if not isinstance(signed, bool):
+        raise Unsupported('symbolic signed flag')
+    if not isinstance(b, SeqV):
+        raise Unsupported('int.from_bytes(%r)' % (b,))
+    return ex.X.int_from_bytes(ex, b, signed)
+
+
 INT_METHODS = {'bit_length': _int_bit_length, 'to_bytes': _int_to_bytes}
 
 
@@ -2192,6 +2354,8 @@ def default_globals():
             'oct2int': FnV(_identity, 'oct2int'), 'octs2ints': FnV(_identity, 'octs2ints'),
             'isOctetsType': FnV(_is_octets_type, 'isOctetsType'),
             'noValue': NOVALUE,
+            'sys': {'__name__': 'sys', 'exc_info': FnV(lambda ex: Tup([ClassV(ex.cur_exc.cls), ex.cur_exc, None]),
+                                                       'sys.exc_info')},
             'eoo': {'endOfOctets': END_OF_OCTETS, '__name__': 'eoo'},
             'SubstrateUnderrunError': ClassV('SubstrateUnderrunError'),
             'PyAsn1Error': ClassV('PyAsn1Error'),
@@ -2223,6 +2387,12 @@ def model_value(m, v):
             e = m.eval(v.z[i], model_completion=True)
             out.append(e.as_long() if is_int_value(e) else None)
         return {'kind': v.kind, 'items': out}
+    if isinstance(v, RecSeqV):
+        cols = [model_value(m, SeqV(c, 'tuple')) for c in v.cols]
+        try:
+            return {'records': [list(r) for r in zip(*[c['items'] for c in cols])]}
+        except Exception:
+            return None
     if isinstance(v, Tup):
         return [model_value(m, i) for i in v.items]
     if isinstance(v, Obj):
